@@ -8,7 +8,7 @@ def run(ctx):
     if ctx.replay:
         ctx.run_shards(b, "TestVerifC11", 1, 600, "c11")
     else:
-        ctx.run_shards(b, "TestVerifC11", 16, 600 if ctx.tier == "quick" else 3000, "c11")
+        scale = driver.run_scaled(ctx, b, "TestVerifC11", 16, 3000, "c11")
     return driver.finish(
         ctx, "fault_enumeration",
         "behaviours = path models applied to every DNS exchange in wire form between a fresh ClientDnsConnection and a fresh "
